@@ -935,7 +935,8 @@ class BosonicModes:
         reweights = np.exp(-0.5 * reweights_exp_arg) / (
             np.sqrt(np.linalg.det(2 * np.pi * (C + covmat)))
         )
-        self.weights *= reweights
+        # (not in place: real weights, e.g. of a real-representation cat state, can become complex)
+        self.weights = self.weights * reweights
         self.weights /= np.sum(self.weights)
 
         self.means = self.means[abs(self.weights) > 0]
